@@ -1,0 +1,26 @@
+//go:build verif
+// +build verif
+
+package livesql
+
+import (
+	"github.com/samsarahq/thunder/logger"
+	"github.com/siddontang/go-mysql/replication"
+)
+
+// NewBinlogForVerif builds a Binlog around an in-process event stream instead
+// of a MySQL replication connection. It exists only for the deterministic
+// simulation harness under /verif (build tag verif); RunPollLoop, the row
+// decoding, the column-map cache and the tracker are the production code.
+func NewBinlogForVerif(ldb *LiveDB, database string, streamer *replication.BinlogStreamer) *Binlog {
+	return &Binlog{
+		db:            ldb.DB,
+		database:      database,
+		tracker:       ldb.tracker,
+		syncer:        replication.NewBinlogSyncer(&replication.BinlogSyncerConfig{}),
+		streamer:      streamer,
+		tableVersions: make(map[string]uint64),
+		columnMaps:    make(map[string]*columnMap),
+		logger:        logger.New(),
+	}
+}
